@@ -17,3 +17,6 @@ open SamVerif.Scope SamVerif.Sig
 #print axioms block_wrap_no_leak
 #print axioms block_wrap_resolution
 #print axioms block_wrap_expr
+#print axioms iflet_scope_exits_before_else
+#print axioms visit_ifGuard_shape
+#print axioms delayed_pop_counterexample
